@@ -30,6 +30,8 @@ def closure(facts, kinds, taker):
                 for (s2, f2, o2) in F:
                     if f2 == f and s2 == o:
                         new.add((s, f, o2))
+            if f == "runs":                           # Runs < EmployedBy, both single-valued fields of one class
+                new.add((s, "employed_by", o))
             if f == "leads":                          # Leads < Chairs < Attends; the class has no field for the middle level
                 new.add((s, "attends", o))
             if f == "chairs" and kinds.get(taker[s]) in ("Delegate", "Convener"):   # Chairs < Attends, the field lives on a subclass of the
@@ -53,7 +55,7 @@ def closure(facts, kinds, taker):
         F |= new
 
 
-SINGLE = {"works_for", "head_of", "chairs"}
+SINGLE = {"works_for", "head_of", "chairs", "runs", "employed_by"}
 
 
 def observe_fields(om, named):
@@ -65,6 +67,8 @@ def observe_fields(om, named):
             fl = ("members", "sub_org_of", "part_of", "has_part", "wholly_owned_by")
         elif isinstance(o, om.Person):
             fl = ("works_for", "member_of")
+        elif isinstance(o, getattr(om, "Boss", ())):
+            fl = ("runs", "employed_by")
         elif isinstance(o, getattr(om, "Unit", ())):
             fl = ("under",)
         elif isinstance(o, getattr(om, "Convener", ())):
